@@ -160,6 +160,9 @@ class State:
         if kind == "assert" and what.startswith("Overflow("):
             a = o.of_operand(t["msg_ops"][0])
             c = o.of_operand(t["msg_ops"][1])
+            r = self.p_const_fold(b, what, a, c)
+            if r:
+                return True, r
             for rule in (self.p_counter_step, self.p_bounded_counter_step, self.p_sub_guard, self.p_counted_field):
                 r = rule(b, blk, what, a, c, t)
                 if r:
@@ -291,9 +294,13 @@ class State:
                     break
             if not rv or rv["k"] != "binop" or rv["op"] not in ("Ge", "Lt", "Gt", "Le"):
                 continue
-            if not (self.is_copy_of(b, rv["a"], local) and rv["b"].get("k") == "const" and "int" in rv["b"]):
+            if not self.is_copy_of(b, rv["a"], local):
                 continue
-            c = rv["b"]["int"]
+            # the bound is a literal, or evaluates to one (a named constant, `N - 1`)
+            ct = self.o(b).of_operand(rv["b"])
+            if len(ct) != 1 or next(iter(ct))[0] != "const" or not isinstance(next(iter(ct))[1], int):
+                continue
+            c = next(iter(ct))[1]
             tt = ft = t["otherwise"]
             for v, tgt in t["targets"]:
                 if v == 0:
@@ -391,6 +398,22 @@ class State:
             on_cycle = any(blk in comp and (len(comp) > 1 or blk in sub.get(blk, [])) for comp in comps)
             if not on_cycle:
                 return "P-iteration-counter: a usize counter incremented at most once per item of an in-memory iterator cannot overflow"
+        return None
+
+    def p_const_fold(self, b, what, a, c):
+        """Checked arithmetic on two literals (a named constant minus one): evaluate it."""
+        if len(a) != 1 or len(c) != 1:
+            return None
+        x, y = next(iter(a)), next(iter(c))
+        if x[0] != "const" or y[0] != "const" or not isinstance(x[1], int) or not isinstance(y[1], int) or isinstance(x[1], bool):
+            return None
+        op = what[len("Overflow("):-1]
+        v = {"Add": x[1] + y[1], "Sub": x[1] - y[1], "Mul": x[1] * y[1]}.get(op)
+        if v is None:
+            return None
+        # the narrowest integer type in use is i8/u8; usize/i32 operands of this crate: accept a result representable in both
+        if 0 <= v < 2 ** 31:
+            return f"P-const-fold: {x[1]} {op} {y[1]} = {v} is evaluated from the two literals and is in range"
         return None
 
     def is_iteration_counter(self, b, loc):
